@@ -103,5 +103,5 @@ FoldAgrees == Done => LET s == RunTape(tape, fe, gpol) IN s.edges = edges /\ s.r
 PrefixExact == pc = "gap" => LET segs == TapeSegs(tape, fe, gpol) IN
                  \/ PlayedSignal(edges) = Canon(TrimSilence(segs))
                  \/ BlipTail(segs) /\ SigPrefix(Canon(TrimSilence(segs)), PlayedSignal(edges))
-                                   /\ SigPrefix(PlayedSignal(edges), Canon(DropMerged(segs)))
+                                   /\ SigPrefix(PlayedSignal(edges), Canon(segs))
 =============================================================================
